@@ -12,7 +12,19 @@ use vh::{CaseOut, Ctx, Oracle, Out};
 
 fn fill_case(ctx: &mut Ctx, max_edges: usize) {
     ctx.case_check("chk_fill", |rng| {
-        let poly = gen_poly(rng, max_edges);
+        // one case in eight: a y-monotone polygon whose chains interleave in x (the shape the
+        // monotone stage's heuristics are sensitive to), with its sweep sequence kept for attribution
+        let mut mono_seq: Option<Vec<(lyon_path::math::Point, bool)>> = None;
+        let poly = if rng.chance(1, 8) {
+            let n_mid = rng.range(3, 14) as usize;
+            let lattice = rng.chance(1, 4);
+            let seq = gen_monotone(rng, n_mid, None, lattice);
+            let p = Poly { subs: vec![(monotone_outline(&seq), true)], kind: "monotone" };
+            mono_seq = Some(seq);
+            p
+        } else {
+            gen_poly(rng, max_edges)
+        };
         let cfg = FillCfg::gen(rng);
         let mut args = Out::new();
         cfg.put(&mut args);
@@ -43,6 +55,15 @@ fn fill_case(ctx: &mut Ctx, max_edges: usize) {
                         "generic",
                         || "non-finite vertex".into(),
                     );
+                    // known defect of the advanced monotone tessellator, attributed exactly through
+                    // hook H2 (advanced misbehaves on this very sweep sequence, basic does not)
+                    if let Some(seq) = &mono_seq {
+                        if cfg.orientation == lyon_tessellation::Orientation::Vertical && advanced_monotone_misbehaves(seq) {
+                            orc.check(false, "fill/fill", "advanced-chain-fan", || {
+                                "advanced monotone tessellator misbehaves on this monotone polygon (basic is correct)".into()
+                            });
+                        }
+                    }
                     if orc.failed() {
                         return (CaseOut { imp: o, orcl: orc.verdict }, None);
                     }
@@ -63,9 +84,9 @@ fn fill_case(ctx: &mut Ctx, max_edges: usize) {
 
 fn main() {
     let mut ctx = Ctx::from_args("C01");
-    let n = ctx.n(400, 20000);
+    let n = ctx.n(4000, 100000);
     for _ in 0..n {
-        fill_case(&mut ctx, 12);
+        fill_case(&mut ctx, 24);
     }
     ctx.finish();
 }
